@@ -40,6 +40,18 @@ CHECKS = {
          "VTLApi models one API call as a state machine over what the caller observes (arguments, outcome, returned results, files); TLC checks FilesFaithful on it (selected results delivered to files or memory, scalar file written once). Each generated script (persistent and non-persistent dataset statements of all modelled operator families, scalar statements incl. null / date / period scalars) and each corpus script is run with an output folder in csv and parquet under both return_only_persistent settings and again in memory; each pair is one event validated by TLC (VTLApi_Trace): file set = one file per returned dataset (+ _scalars.csv), file columns and rows = the in-memory result, returned datasets carry no data, scalar file = returned scalars.",
          "Numbers in files are compared at 12 significant digits (text round trip of doubles); file rows are typed through the declared structure. The TLA+ content is a relation over recorded projections; the strength is the breadth of generated calls.",
          "TLC model checking of the API-call machine + trace validation of (output folder, in-memory) run pairs"),
+ 'C18': ('model_checking',
+         "Every table TLC enumerates from VTLFormats (GenTables: the cell pools of all eight types - documented spellings, boundary values, invalid values and the cells whose validity the documentation leaves open such as padded, hexadecimal, fractional or empty values - each as nullable measure, non-nullable measure and identifier; pairs of different spellings of one identifier value; structural violations alone and combined) is written in the four input forms - CSV, DataFrame with string columns, DataFrame with native dtypes, Parquet - and run(): all four must be rejected with a VTL input error or all accepted with the same values. The specification has one abstract table; each form is one observation of it.",
+         "A null cell is an empty unquoted CSV field / None in a DataFrame; the empty string is its own cell. Native dtypes (Int64 / Float64 / boolean) are used where every cell of the column is a value, text otherwise.",
+         "TLC enumeration of the documented cell pools, each table observed in four input forms"),
+ 'C19': ('model_checking',
+         "VTLFormats transcribes the documented input formats of all eight scalar types as cell pools [form, text, denoted value | Invalid | not determined] (calendar validity through VTLCalendar: month 13, 30 February, 29 February of a common year, week 54, week 53 of a 52-week year, day 366 of a common year, years 1799 / 10000, partial or out-of-range times, reversed intervals, fractional / hexadecimal integers ...) and the verdict of a table (duplicate identifier keys by DENOTED value, null identifier, missing identifier or non-nullable column, more than one datapoint without identifiers, invalid cell). TLC (GenTables) enumerates every cell in three roles, duplicate spellings and single / combined structural violations; each table is written as CSV and as a string DataFrame: run() must reject exactly the tables the documentation rejects, and accepted values must be the denoted ones (dates and periods in their documented output form).",
+         "Cells the documentation does not determine (padding, \"+5\", \"3.0\", \"1e3\" for Integer, lowercase indicators, NaN ...) are not judged here; C18 / C20 compare them across forms.",
+         "TLC enumeration of documented cell pools and table violations replayed into run()"),
+ 'C20': ('model_checking',
+         "The same TLC-enumerated tables (GenTables over VTLFormats) as string DataFrame, native DataFrame and CSV file: validate_dataset() must raise exactly when run() of a script reading the dataset rejects the identical input; both functions are observed on the same table in the same process state.",
+         "Parquet is not an input form of validate_dataset in this check.",
+         "TLC enumeration of documented cell pools; differential observation of validate_dataset() and run()"),
  'C21': ('model_checking',
          "VTLFormats transcribes the documented input forms of Time_Period (23 forms over 6 indicators) and the four output formats; TLC (GenFormats, with VTLCalendar) proves for EVERY period of the requested years that every rendering is itself a documented input form denoting the same period (day periods through month/day arithmetic), that all input forms of a period agree, and that sdmx_gregorian is expressible exactly for A/M/D, and emits the text of every input form and rendering. The engine receives one table per (indicator, input form) as a measure (CSV and DataFrame) under each output format and as an identifier: the output must equal the documented rendering, non-expressible indicators must raise a VTL error; read-back is covered because every rendering is one of the input forms fed. The Python implementation (check_time_period, TimePeriodHandler and its four representation methods) is run on the same texts and must parse and render identically to the spec, hence to the SQL macros.",
          "Quick tier: boundary years plus the extreme years 1, 999, 1000, 9999; thorough: every year 1900-2100 plus a sample of 0001-9999. Years below 1000 are a known finding.",
